@@ -96,12 +96,12 @@ func (f *faultStream) send() error {
 	return nil
 }
 func (f *faultStream) Send(*sdcpb.SubscribeResponse) error { return f.send() }
-func (f *faultStream) SetHeader(metadata.MD) error           { return nil }
-func (f *faultStream) SendHeader(metadata.MD) error          { return nil }
-func (f *faultStream) SetTrailer(metadata.MD)                {}
-func (f *faultStream) Context() context.Context              { return f.ctx }
-func (f *faultStream) SendMsg(any) error                     { return f.send() }
-func (f *faultStream) RecvMsg(any) error                     { return nil }
+func (f *faultStream) SetHeader(metadata.MD) error         { return nil }
+func (f *faultStream) SendHeader(metadata.MD) error        { return nil }
+func (f *faultStream) SetTrailer(metadata.MD)              {}
+func (f *faultStream) Context() context.Context            { return f.ctx }
+func (f *faultStream) SendMsg(any) error                   { return f.send() }
+func (f *faultStream) RecvMsg(any) error                   { return nil }
 
 type StreamRunner struct {
 	W   *env.World
